@@ -402,6 +402,11 @@ var c37Templates = []c37Template{
 	{Name: "trailing-semicolon", Parts: []string{"select *", "from", "A", "tail 1", ";"}},
 	{Name: "two-statements", Parts: []string{"select *", "from", "A", "; select *", "from", "B", "tail 1"}, Two: true},
 	{Name: "upper-case", Parts: []string{"SELECT *", "FROM", "A", "JOIN", "B", "WITHIN 10m LAST 1h"}, Two: true},
+	// a free-standing ';' in the middle of one statement: whatever the proxy authorises must be what the upstream executes
+	{Name: "semicolon-then-join", Parts: []string{"select *", "from", "A", "a ; join", "B", "b on a._key = b._key within 10m last 1h"}, Two: true},
+	{Name: "semicolon-then-left-join", Parts: []string{"select *", "from", "A", "a ; left join", "B", "b on a._key = b._key within 10m last 1h"}, Two: true},
+	{Name: "explain-semicolon-then-join", Parts: []string{"explain select *", "from", "A", "a ; join", "B", "b on a._key = b._key within 10m last 1h"}, Two: true},
+	{Name: "semicolon-then-from", Parts: []string{"select * ;", "select *", "from", "A", "; from", "B", "tail 1"}, Two: true},
 }
 
 var c37PadTargets = []int{500, 511, 512, 513, 600}
@@ -695,7 +700,7 @@ func c37Short(s string) string {
 func TestVerifC37(t *testing.T) {
 	rep := vh.New(t, "C37")
 	defer rep.Finish()
-	rep.Rule = "case = (ACL, decision cache on/off, session of 1-2 query texts) run client -> real proxy handleConn -> recording tee -> real upstream server -> loopback S3. Texts = 13 templates x topics {ok,secret,okx} x (no padding | space padding after each part so that the next part starts at byte 500/511/512/513/600 | a long column list before FROM). Outcome signature = per query forwarded/denied + topics whose segments the upstream downloaded + oracle flags, with the template/padding label. Non-trivial = the proxy denied the query, or forwarded it and the upstream downloaded >= 1 segment."
+	rep.Rule = "case = (ACL, decision cache on/off, session of 1-2 query texts) run client -> real proxy handleConn -> recording tee -> real upstream server -> loopback S3. Texts = 17 templates x topics {ok,secret,okx} x (no padding | space padding after each part so that the next part starts at byte 500/511/512/513/600 | a long column list before FROM). Outcome signature = per query forwarded/denied + topics whose segments the upstream downloaded + oracle flags, with the template/padding label. Non-trivial = the proxy denied the query, or forwarded it and the upstream downloaded >= 1 segment."
 	rep.Assumptions = []string{
 		"topics read = topics whose segment objects (.kfs) the upstream fetched in full (decoding); the footer probes and listing that discovery performs on every topic for every query are not reads",
 		"EXPLAIN output (segment counts/bytes of the named topics) is not counted as reading a topic under O1; it is covered by O2 only when the text was authorised on its truncation",
